@@ -82,4 +82,41 @@ def dualMsmCheck {Q T M : Type} (smul : S → G → G)
   pure (isIdentity (finalExp (mml [(left, sG2), (right, nG2)])))
 end
 
+/-! ## Prepared `G2` points and the unprepared entry point -/
+
+/-- `bls12_381/g2.rs: struct G2Prepared { lines, infinity }`. -/
+structure G2Prepared (L : Type) where
+  lines : List L
+  infinity : Bool
+deriving Repr
+
+/-- `bls12_381/g2.rs: From<G2Affine> for G2Prepared`: the identity gets no lines and the flag,
+every other point the 68 lines of `blst_precompute_lines`. -/
+def g2Prepare {Q L : Type} (isIdQ : Q → Bool) (precompute : Q → List L) (q : Q) : G2Prepared L :=
+  if isIdQ q then ⟨[], true⟩ else ⟨precompute q, false⟩
+
+/-- `bls12_381/g2.rs: G2Prepared::is_identity` — reads the flag (not the lines). -/
+def G2Prepared.isIdentity {L : Type} (p : G2Prepared L) : Bool := p.infinity
+
+/-- `bls12_381/mod.rs: multi_miller_loop` on prepared terms: `blst_miller_loop_lines(tmp, q.lines, p)`
+for pairs without identity. -/
+def multiMillerLoopPrepared {P L M : Type} [Mul M] [One M] (isIdP : P → Bool)
+    (millerLines : P → List L → M) (terms : List (P × G2Prepared L)) : M :=
+  multiMillerLoopBls isIdP G2Prepared.isIdentity (fun p q => millerLines p q.lines) terms
+
+/-- `bls12_381/bls_pairing.rs: pairing(p, q)`: `blst_miller_loop` then `blst_final_exp`, **without**
+an identity test on the Rust side (blst's loop handles the points at infinity itself). -/
+def pairingEntry {P Q M T : Type} (millerRaw : P → Q → M) (finalExp : M → T) (p : P) (q : Q) : T :=
+  finalExp (millerRaw p q)
+
+/-- `derive/pairing.rs: Engine::pairing` (BN254): `multi_miller_loop(&[(p, q)]).final_exponentiation()`. -/
+def pairingEntryBn {P Q M T : Type} (mml : List (P × Q) → M) (finalExp : M → T) (p : P) (q : Q) : T :=
+  finalExp (mml [(p, q)])
+
+/-- `bls_pairing.rs: Add for &MillerLoopResult` (multiplies), `AddAssign`, `Default` (one). -/
+def millerResultAdd {M : Type} [Mul M] (a b : M) : M := a * b
+
+/-- `gt.rs: Sum for Gt`: `iter.fold(identity, |acc, x| acc + x)` with `+` the `Fp12` product. -/
+def gtSum {M : Type} [Mul M] [One M] (l : List M) : M := l.foldl (fun acc x => acc * x) 1
+
 end MidnightZK.C13
